@@ -6,6 +6,7 @@ mod c11;
 mod c14;
 mod c15;
 mod c16;
+mod c17;
 mod c18;
 mod dftzoo;
 mod c20;
@@ -29,6 +30,8 @@ fn main() {
         "c14" => c14::run(&args),
         "c15" => c15::run(&args),
         "c16" => c16::run(&args),
+        "c17" => c17::run(&args),
+        "dbg17" => c17::debug(&args),
         "c18" => c18::run(&args),
         "c20" => c20::run(&args),
         "thermo" => thermo::run(&args),
